@@ -193,8 +193,11 @@ class AXISlave(Agent):
     """Memory slave for AXI4: accepts AW/AR/W with literal ready patterns, expands bursts with beat_addresses(),
     answers in order. init(byte address) -> byte. Logs every burst and beat; checks W beat count/last itself."""
 
-    def __init__(self, bus, name="s", awready="", wready="", arready="", lat=None, depth=2, init=None, err_range=None):
+    def __init__(self, bus, name="s", awready="", wready="", arready="", lat=None, depth=2, init=None, err_range=None, silent_from=None):
         self.bus, self.name = bus, name
+        self.silent_from = silent_from      # fault: from this cycle on (and once nothing accepted is unanswered) the slave is dead
+        self.is_silent = False
+        self.silent_between = False         # may also die with a write address taken and its data not yet
         self.pat = {"aw": awready, "w": wready, "ar": arready}
         self.lat = lat or [1]
         self.depth = depth
@@ -300,6 +303,11 @@ class AXISlave(Agent):
             w(b.b.valid, 0)
         if not self.r_on and v[b.r.valid]:
             w(b.r.valid, 0)
+        if (self.silent_from is not None and t >= self.silent_from and not self.is_silent
+                and not (self.wbeats or self.wr_done or self.rd_q) and (not self.awq or self.silent_between)):
+            self.is_silent = True
+            self.bench.fault("silent_slave")
+            self.bench.event(self.name, "silent", t)
         needed = sum(e[1] + 1 for e in self.awq)
         # W beats that complete an already accepted burst are always welcome; beats running ahead of their AW are bounded
         w_q = len(self.wr_done) if len(self.wbeats) < needed else (len(self.wbeats) - needed) // 4 + 1 + len(self.wr_done)
@@ -307,7 +315,7 @@ class AXISlave(Agent):
             chan = getattr(b, ch)
             pat = self.pat[ch]
             want = 1 if t >= len(pat) else int(pat[t] == "1")
-            if q_len >= self.depth:
+            if q_len >= self.depth or self.is_silent:
                 want = 0
             if want != v[chan.ready]:
                 w(chan.ready, want)
